@@ -284,23 +284,20 @@ fn stages(tier: Tier) -> Vec<Stage> {
     });
 
     if tier == Tier::Thorough {
-        // both assertions range over lifecycle x mode x window
+        // both assertions range over lifecycle x mode x window; the relation and the second stance vary
+        // innermost so that a time-capped run still covers every relation
         let lives = [Life::Active, Life::Retracted, Life::SupersededByDead];
+        let modes = [Mode::Stated, Mode::Inferred, Mode::Predicted, Mode::Hypothetical];
         let mut both = Vec::new();
-        for (actor, ev, label) in [
-            (0u8, 0u8, "same actor"),
-            (1, 0b001, "same evidence"),
-            (1, 0b010, "independent"),
-        ] {
-            let _ = label;
-            for stance2 in [Stance::Support, Stance::Reject] {
-                for l1 in lives {
-                    for m1 in Mode::ALL {
-                        for w1 in Window::ALL {
-                            let x = subject(x_spec(false, Stance::Support, 9, m1, w1), l1, 'x');
-                            for l2 in lives {
-                                for m2 in Mode::ALL {
-                                    for w2 in Window::ALL {
+        for l1 in lives {
+            for m1 in modes {
+                for w1 in Window::ALL {
+                    let x = subject(x_spec(false, Stance::Support, 9, m1, w1), l1, 'x');
+                    for l2 in lives {
+                        for m2 in modes {
+                            for w2 in Window::ALL {
+                                for (actor, ev) in [(0u8, 0u8), (1, 0b001), (1, 0b010)] {
+                                    for stance2 in [Stance::Support, Stance::Reject] {
                                         let s2 = Spec {
                                             rival: false,
                                             actor,
@@ -320,7 +317,7 @@ fn stages(tier: Tier) -> Vec<Stage> {
             }
         }
         v.push(Stage {
-            name: "2 assertions, both over 3 lifecycles x 6 modes x 7 windows, x {same actor, same evidence, independent} x {support, reject}, every interleaving".into(),
+            name: "2 assertions, both over 3 lifecycles x 4 modes {stated,inferred,predicted,hypothetical} x 7 windows, x {same actor, same evidence, independent} x {support, reject}, every interleaving".into(),
             depth: 2,
             groups: both,
             queries: mode_q,
@@ -358,7 +355,13 @@ fn main() {
     let threads = util::n_threads();
     let mut completed = 0usize;
     let mut stage_log: Vec<serde_json::Value> = Vec::new();
+    // development aid: `--stages <substring>` runs only the stages whose name contains it
+    let only: Option<String> = run.args.iter().position(|a| a == "--stages").and_then(|i| run.args.get(i + 1).cloned());
     for stage in stages(run.tier) {
+        if only.as_ref().map(|o| !stage.name.contains(o.as_str())).unwrap_or(false) {
+            run.cap_hit(&format!("stage filter: '{}' skipped", stage.name));
+            continue;
+        }
         if !run.in_budget() {
             run.cap_hit(&format!("time budget: stage '{}' not started", stage.name));
             continue;
